@@ -61,7 +61,7 @@ Print Assumptions C20_pool_bond_held_by_module.
    history, the user-message clauses (escrow, frame, reject) on every create / bond / reclaim step *)
 Theorem C20_chk_sound_state :
   forall v c users dens ok ops l, fixed v -> 0 <= bal MOD UKEX l -> Forall wf_op ops ->
-  state_clauses c (snap users dens ok (run v c ops (empty_state l))) = [].
+  state_clauses (max_thr c) (snap users dens ok (run v c ops (empty_state l))) = [].
 Proof. exact state_clauses_sound_fixed. Qed.
 Print Assumptions C20_chk_sound_state.
 Theorem C20_chk_sound_user_step :
